@@ -57,8 +57,8 @@ func (h *cmHarness) pickKey(t *rapid.T, label string, base uint64) (k uint64, ki
 }
 
 func TestPropCompactMapModel(t *testing.T) {
-	vlib.Check(t, 1200, 30000, func(t *rapid.T) {
-		prelude := rapid.SampledFrom([]string{"none", "none", "run", "run", "run", "full"}).Draw(t, "prelude")
+	vlib.Check(t, 800, 30000, func(t *rapid.T) {
+		prelude := rapid.SampledFrom([]string{"none", "none", "none", "run", "run", "run", "run", "run", "run", "full"}).Draw(t, "prelude")
 		h := newCmHarness(prelude != "full")
 		defer h.close()
 		base := rapid.SampledFrom([]uint64{1, 1, 1000, 1<<32 - 300, 1 << 40, 1<<63 + 7, 1<<64 - 1<<34}).Draw(t, "base")
@@ -67,7 +67,7 @@ func TestPropCompactMapModel(t *testing.T) {
 			units := genUnits().Draw(t, "runUnits")
 			size := genSize(false).Draw(t, "runSize")
 			h.logf("Asc(%x,n=%d,stride=%d,units=%d+i,size=%d){", start, n, stride, units, size)
-			mark := len(h.ops)
+			h.quiet = true
 			for i := 0; i < n; i++ {
 				u := units + int64(i)
 				if u > maxUnits {
@@ -75,7 +75,10 @@ func TestPropCompactMapModel(t *testing.T) {
 				}
 				h.set(t, start+uint64(i)*stride, u, size)
 			}
-			h.ops = append(h.ops[:mark], "}") // keep the trace short: the run is described by its header
+			h.quiet = false
+			h.logf("}") // the run is described by its header
+			h.checkKey(t, start)
+			h.checkKey(t, start+uint64(n-1)*stride)
 		}
 		switch prelude {
 		case "run":
@@ -215,9 +218,11 @@ func TestPropCompactMapExhaustive(t *testing.T) {
 				x /= nOps
 			}
 			h := newCmHarness(false)
+			h.quiet = true
 			for i := 0; i < 140; i++ {
 				h.set(t, 1000+uint64(i)*10, int64(100+i), 9)
 			}
+			h.quiet = false
 			h.ops = []string{"Asc(3e8,n=140,stride=10,units=100+i,size=9){}"}
 			h.outOfOrd = false
 			excluded := false
